@@ -365,6 +365,37 @@ def run(repo: Repo, rep: Report, tier: str) -> None:
         props = kwarg(role[0], "properties") if role else None
         rep.check(props is not None and cpue.text(props).startswith("op.properties"), "C09-R5", "the placement carries the place() properties", norm(props) if props is not None else "", pue.loc())
 
+    # ---------------- R6 ---------------------------------------------------------------
+    rep.rule("C09-R6", "a placed entity occupies the tiles the game gives its prototype: get_footprint answers with the declared tile size whenever the prototype has one and falls "
+             "back to the ceiled collision box only otherwise (the two differ for some prototypes — the rule lists them from the game data — and the tile-to-centre "
+             "conversion shifts such an entity by half a tile)")
+    import math as _math
+    from ..gamedata import raw as _raw9
+    gf9 = repo.func("EntityDataHelper.get_footprint")
+    g9 = CFG(gf9.node)
+    cg9 = canon(gf9)
+    rets9 = [s for s in g9.stmts() if isinstance(s, ast.Return) and s.value is not None]
+    tile_rets = [r for r in rets9 if "'tile_width'" in cg9.text(r.value)]
+    coll_rets = [r for r in rets9 if "'collision_box'" in cg9.text(r.value) and "'tile_width'" not in cg9.text(r.value)]
+    if not tile_rets or not coll_rets:
+        raise AnalysisError(f"C09-R6: get_footprint returns not recognised (tile-size returns {len(tile_rets)}, collision-box returns {len(coll_rets)})")
+    differing = []
+    for name9, p9 in _raw9().items():
+        tw, th, cb = p9.get("tile_width"), p9.get("tile_height"), p9.get("collision_box")
+        if tw is not None and th is not None and cb:
+            est = (max(1, _math.ceil(cb[1][0] - cb[0][0])), max(1, _math.ceil(cb[1][1] - cb[0][1])))
+            if est != (max(1, int(tw)), max(1, int(th))):
+                differing.append(name9)
+    rep.analysed["C09-R6:prototypes whose declared tile size differs from the ceiled collision box"] = sorted(differing)[:40]
+    # precedence: the collision-box answer is given only where the tile-size test has failed, i.e. the `if` that guards the tile-size return dominates it
+    tile_ifs = [s for s in g9.stmts() if isinstance(s, ast.If) and any(r in ast.walk(s) for r in tile_rets) and not any(r in ast.walk(s) for r in coll_rets)]
+    first9 = bool(tile_ifs) and all(any(g9.dominates(ti, cr) for ti in tile_ifs) for cr in coll_rets)
+    rep.check(first9 or not differing, "C09-R6", "get_footprint: the declared tile size takes precedence over the collision-box estimate",
+              f"tile-size test dominates the collision-box answer ({len(differing)} prototypes would differ)" if first9 else
+              f"the collision-box estimate is returned without consulting the tile size first; it differs for {len(differing)} prototypes, e.g. {sorted(differing)[:6]}: such entities are "
+              "placed with the wrong footprint and land half a tile off", gf9.loc(coll_rets[0]))
+
+
 
 def _deep(du: DefUse, e: ast.AST, depth: int = 0) -> list[ast.AST]:
     out = [e]
